@@ -278,18 +278,21 @@ def faithful_clone(F, R, rule, im):
 
 def failure_sources(F, root, follow):
     """inventory of where an Err returned by `root` can originate: {(function, source)} with source = 'local Err' for an Err built in
-    that function or the external callee whose error is propagated; workspace callees accepted by follow(fid) are expanded."""
-    out, seen, work = set(), set(), [root]
+    that function or the external callee whose error is propagated; workspace callees accepted by follow(fid) are expanded. A closure
+    handed to a followed callee is bound to that callee's parameter, so `action(x)` inside the callee is followed into the closure."""
+    out, seen, work = set(), set(), [(root, ())]
+    CALLS = ("FnOnce::call_once", "FnMut::call_mut", "Fn::call")
     while work:
-        fid = work.pop()
+        fid, bind = work.pop()
+        bind = dict(bind)
         fn = F.body_of(fid) if hasattr(F, "body_of") else F.fns.get(fid)
         if fn is None:
             fn = F.fns.get(fid)
-        if fn is None or fn["id"] in seen:
+        if fn is None or (fn["id"], tuple(sorted(bind.items()))) in seen:
             if fn is None:
                 out.add((fid, "no-body"))
             continue
-        seen.add(fn["id"])
+        seen.add((fn["id"], tuple(sorted(bind.items()))))
         B = mir.Body(fn, F)
         for o in B.origins(RET):
             if o[0] == "agg":
@@ -297,13 +300,31 @@ def failure_sources(F, root, follow):
                     out.add((fn["id"], "local Err(%s)" % _agg_chain(B, o[2], "Err")))
                 continue
             if o[0] == "call":
+                t = B.blocks[o[2]]["term"]
+                if q.ends(q.base_name(o[1]), *CALLS) and t["args"]:
+                    tgt = [bind[x[1]] for x in B.origins(t["args"][0]) if x[0] == "param" and x[1] in bind]
+                    tgt += [x[1] for x in B.origins(t["args"][0]) if x[0] == "agg" and x[1] in F.fns]
+                    if tgt:
+                        for c in tgt:
+                            work.append((c, tuple(sorted(bind.items()))))
+                        continue
                 if follow(o[1]):
-                    work.append(o[1])
+                    nb = {}
+                    cal = F.fns.get(o[1])
+                    cb = F.body_of(o[1]) if hasattr(F, "body_of") else cal
+                    if cal is not None:
+                        Bc = mir.Body(cal, F)
+                        for i, a in enumerate(t["args"]):
+                            cids = [x[1] for x in B.origins(a) if x[0] == "agg" and x[1] in F.fns and F.fns[x[1]]["kind"] == "Closure"]
+                            cids += [bind[x[1]] for x in B.origins(a) if x[0] == "param" and x[1] in bind]
+                            if len(cids) == 1 and i + 1 < len(Bc.locals) and Bc.locals[i + 1].get("name"):
+                                nb[Bc.locals[i + 1]["name"]] = cids[0]
+                    work.append((o[1], tuple(sorted(nb.items()))))
                 else:
                     out.add((fn["id"], q.base_name(o[1])))
                 continue
             out.add((fn["id"], "%s" % (o[0],)))
-    return out, seen
+    return out, {f for f, _ in seen}
 
 
 def _agg_chain(B, block, variant, depth=3):
